@@ -277,13 +277,17 @@ def _is_udigits(e, st, s):
     return SV(BOOL, And(Not(s.none), z3.InRe(s.v, z3.Plus(_D()))))
 
 
+PS = z3.Function("page_shape_p", z3.StringSort(), z3.BoolSort())
+
+
 @spec("page_shape")
 def _page_shape(e, st, s):
     """language of PAGE_NUMBER_REGEX = \\d+ | roman | _+ ; only the part used here: a page that satisfies
     str.isdigit() is a \\d+ string (roman numerals and underscores are not isdigit())."""
     from pyvc import builtins_model as bm
-    bm.int_axioms(e, st, s.v)
-    return SV(BOOL, Or(s.none, Implies(bm.str_isdigit(s.v), z3.InRe(s.v, z3.Plus(_D())))))
+    x = z3.String("ps!x")
+    e.axioms_once("page_shape_def", lambda: z3.ForAll([x], PS(x) == Implies(bm.str_isdigit(x), z3.InRe(x, z3.Plus(_D()))), patterns=[PS(x)]))
+    return SV(BOOL, Or(s.none, PS(s.v)))
 
 
 @spec("on_re_match")
@@ -298,11 +302,27 @@ def _on_re_match(e, st, m, fname, pat, text, kw):
         st.assume(Implies(Not(m.none), And(bm.m_ghas(m.v, g), bm.m_gstart(m.v, g) == pin_lo(text.v), bm.m_gend(m.v, g) == pin_hi(text.v))))
 
 
-INV = ("((isinstance_exact(full_cite, FullCaseCitation) and full_cite.groups.get('page') is None) or "
-       "(not (isinstance_exact(full_cite, FullCaseCitation) and full_cite.groups.get('page') is None) and truthy(id_cite.metadata.pin_cite) "
-       "and is_udigits(full_cite.groups.get('page')) and (not has_pin_num(id_cite.metadata.pin_cite) "
-       "or pin_num(id_cite.metadata.pin_cite) < str_to_int(full_cite.groups.get('page')) "
-       "or pin_num(id_cite.metadata.pin_cite) > str_to_int(full_cite.groups.get('page')) + 150)))")
+def pin_defs(full, idc):
+    page = f"{full}.groups.get('page')"
+    pin = f"{idc}.metadata.pin_cite"
+    return {
+        # the antecedent has a placeholder page
+        "PLACEHOLDER": f"lambda: isinstance_exact({full}, FullCaseCitation) and {page} is None",
+        "HASPIN": f"lambda: truthy({pin})",
+        # the antecedent's page is a decimal number that int() can read (at most 4300 digits)
+        "NUMERIC": f"lambda: is_udigits({page}) and len({page}) <= 4300",
+        "NONDIGIT": f"lambda: {page} is None or not str_isdigit({page})",
+        # the pin cite is non-numeric, or lies before the first page, or implausibly far (150 pages) beyond it
+        "WINDOW_BAD": f"lambda: not has_pin_num({pin}) or pin_num({pin}) < str_to_int({page}) or pin_num({pin}) > str_to_int({page}) + 150",
+    }
+
+
+@spec("str_isdigit")
+def _str_isdigit(e, st, s):
+    from pyvc import builtins_model as bm
+    bm.int_axioms(e, st, s.v)
+    return SV(BOOL, And(Not(s.none), bm.str_isdigit(s.v)))
+
 
 contract("resolve._has_invalid_pin_cite",
     types={"full_cite": "obj<FullCitation>", "id_cite": "obj<IdCitation>"}, returns="bool", noraise=True, prop="C07",
@@ -313,12 +333,16 @@ contract("resolve._has_invalid_pin_cite",
         # pin cites come from a 300-character match window (helpers.MAX_MATCH_CHARS)
         "pin_len": "id_cite.metadata.pin_cite is None or len(id_cite.metadata.pin_cite) <= 300",
     },
+    defs=pin_defs("full_cite", "id_cite"),
     ensures={
-        # from the statement: unresolved when the antecedent has a placeholder page, or when the pin cite is
-        # non-numeric or lies before the first page or implausibly far (150 pages) beyond it
-        "window": f"result == {INV}",
-    },
-    props={"window": "C07"})
+        # from the statement: unresolved when the antecedent has a placeholder page ...
+        "placeholder": "implies(PLACEHOLDER(), result)",
+        "no_pin_ok": "implies(not PLACEHOLDER() and not HASPIN(), not result)",
+        # ... or when its pin cite is non-numeric or lies before the first page or implausibly far beyond it
+        "window": "implies(not PLACEHOLDER() and HASPIN() and NUMERIC(), result == WINDOW_BAD())",
+        # antecedents without a numeric page (statutes, roman pages): nothing to compare against, accepted
+        "nonnumeric_page_ok": "implies(not PLACEHOLDER() and HASPIN() and NONDIGIT(), not result)",
+    })
 
 contract("resolve._resolve_id_citation",
     types={"id_citation": "obj<IdCitation>", "last_resolution": "obj<Resource>",
@@ -328,14 +352,163 @@ contract("resolve._resolve_id_citation",
         "id": "id_citation is not None and id_citation.metadata is not None",
         "pin_len": "id_citation.metadata.pin_cite is None or len(id_citation.metadata.pin_cite) <= 300",
         # loop invariant (vi) of resolve_citations: the last resolution is a key with a non-empty list whose head is a full citation
-        "last_in_keys": "implies(last_resolution is not None, map_has(resolutions, reskey(last_resolution)) and len(map_get(resolutions, reskey(last_resolution))) >= 1 "
-                        "and map_get(resolutions, reskey(last_resolution))[0] is not None and isinstance(map_get(resolutions, reskey(last_resolution))[0], FullCitation) "
-                        "and map_get(resolutions, reskey(last_resolution))[0].groups is not None and page_shape(map_get(resolutions, reskey(last_resolution))[0].groups.get('page')))",
+        "last_in_keys": "implies(last_resolution is not None, map_has(resolutions, reskey(last_resolution)) and len(map_get(resolutions, reskey(last_resolution))) >= 1)",
+        "head_is_full": "implies(last_resolution is not None, map_get(resolutions, reskey(last_resolution))[0] is not None and isinstance(map_get(resolutions, reskey(last_resolution))[0], FullCitation))",
+        "head_groups": "implies(last_resolution is not None, map_get(resolutions, reskey(last_resolution))[0].groups is not None)",
+        "head_page_shape": "implies(last_resolution is not None, page_shape(map_get(resolutions, reskey(last_resolution))[0].groups.get('page')))",
     },
-    defs={"INVALID": "lambda: " + INV.replace("full_cite", "typed(map_get(resolutions, reskey(last_resolution))[0], 'obj<FullCitation>')").replace("id_cite", "id_citation")},
+    defs=pin_defs("typed(map_get(resolutions, reskey(last_resolution))[0], 'obj<FullCitation>')", "id_citation"),
     ensures={
         # an id. citation is attached only to the resource of the citation immediately before it ...
         "only_last": "result is None or result is last_resolution",
-        # ... and is left unresolved when that citation is unresolved or the pin cite is implausible
-        "none_iff": "(result is None) == (last_resolution is None or INVALID())",
+        # ... and is left unresolved when that citation is unresolved, when the antecedent has a placeholder page,
+        # or when the pin cite is non-numeric / before the first page / implausibly far beyond it
+        "prev_unresolved": "implies(last_resolution is None, result is None)",
+        "placeholder": "implies(last_resolution is not None and PLACEHOLDER(), result is None)",
+        "window_bad": "implies(last_resolution is not None and not PLACEHOLDER() and HASPIN() and NUMERIC() and WINDOW_BAD(), result is None)",
+        "window_ok": "implies(last_resolution is not None and not PLACEHOLDER() and HASPIN() and NUMERIC() and not WINDOW_BAD(), result is last_resolution)",
+        "no_pin": "implies(last_resolution is not None and not PLACEHOLDER() and not HASPIN(), result is last_resolution)",
     })
+
+# ------------------------------------------------------------------------------------------------ short form
+contract("models.ResourceCitation.corrected_reporter",
+    types={"self": "obj<ResourceCitation>"}, returns="str", prop="C16",
+    requires={"self": "self is not None and self.groups is not None",
+              "has_reporter": "self.edition_guess is not None or 'reporter' in self.groups"},
+    # normalised reporter: the guessed edition's name if there is a guess, else the reporter as written
+    pure_result="ite(self.edition_guess is not None, self.edition_guess.short_name, self.groups['reporter'])")
+
+CASE_WF = ("(lambda c: c is not None and c.groups is not None and c.metadata is not None "
+           "and (c.edition_guess is not None or 'reporter' in c.groups))")
+
+SHORT_DEFS = {
+    # statement: "a previously cited case with the same normalised reporter and volume"
+    "C": "lambda i: isinstance(resolved_full_cites[i][0], FullCaseCitation) "
+         "and short_citation.corrected_reporter() == typed(resolved_full_cites[i][0], 'obj<FullCaseCitation>').corrected_reporter() "
+         "and short_citation.groups.get('volume') == resolved_full_cites[i][0].groups.get('volume')",
+    "M": ANTE_DEFS["M"].replace("antecedent_guess", "short_citation.metadata.antecedent_guess"),
+}
+RFC_CASE_WF = ("forall(lambda i: implies(0 <= i and i < len(resolved_full_cites), resolved_full_cites[i][0].groups is not None and "
+               "(resolved_full_cites[i][0].edition_guess is not None or 'reporter' in resolved_full_cites[i][0].groups)))")
+
+contract("resolve._resolve_shortcase_citation",
+    types={"short_citation": "obj<ShortCaseCitation>", "resolved_full_cites": "seq[tuple[obj<FullCitation>,obj<Resource>]]"},
+    returns="obj<Resource>", noraise=True, prop="C07",
+    requires={"rfc_wf": RFC_WF, "rfc_case_wf": RFC_CASE_WF,
+              "short": "short_citation is not None and short_citation.groups is not None and short_citation.metadata is not None "
+                       "and (short_citation.edition_guess is not None or 'reporter' in short_citation.groups)"},
+    defs=SHORT_DEFS, locals_types={"candidates": "seq[tuple[obj<FullCitation>,obj<Resource>]]"},
+    ghost={"cidx": "seq[int]", "cinv": "seq[int]"},
+    ghost_init={"ghost0": "len(ghost.cidx) == 0 and len(ghost.cinv) == 0"},
+    ensures={
+        # attached only to a previously cited case with the same normalised reporter and volume ...
+        "member": "implies(result is not None, exists(lambda i: 0 <= i and i < len(resolved_full_cites) and C(i) and resolved_full_cites[i][1] is result))",
+        # ... and only if that case is the unique such case, or the unique one among them whose party names contain the antecedent
+        "unique_or_antecedent": "implies(result is not None, "
+            "forall(lambda i: implies(0 <= i and i < len(resolved_full_cites) and C(i), reskey(resolved_full_cites[i][1]) == reskey(result))) "
+            "or (truthy(short_citation.metadata.antecedent_guess) and forall(lambda i: implies(0 <= i and i < len(resolved_full_cites) and C(i) and M(i), "
+            "reskey(resolved_full_cites[i][1]) == reskey(result)))))",
+        "no_candidate_none": "implies(forall(lambda i: implies(0 <= i and i < len(resolved_full_cites), not C(i))), result is None)",
+        # two or more distinct candidates and nothing to refine with -> unresolved
+        "ambiguous_none": "implies(exists(lambda i, j: 0 <= i and i < len(resolved_full_cites) and 0 <= j and j < len(resolved_full_cites) and C(i) and C(j) "
+                          "and reskey(resolved_full_cites[i][1]) != reskey(resolved_full_cites[j][1])) and not truthy(short_citation.metadata.antecedent_guess), result is None)",
+        "ambiguous_antecedent_none": "implies(exists(lambda i, j: 0 <= i and i < len(resolved_full_cites) and 0 <= j and j < len(resolved_full_cites) and C(i) and C(j) and M(i) and M(j) "
+                          "and reskey(resolved_full_cites[i][1]) != reskey(resolved_full_cites[j][1])), result is None)",
+        "resolves_unique": "implies(exists(lambda i: 0 <= i and i < len(resolved_full_cites) and C(i)) and forall(lambda i, j: implies(0 <= i and i < len(resolved_full_cites) and 0 <= j and j < len(resolved_full_cites) and C(i) and C(j), "
+                           "reskey(resolved_full_cites[i][1]) == reskey(resolved_full_cites[j][1]))), result is not None)",
+    })
+
+loop("resolve._resolve_shortcase_citation", 1,
+    invariant={
+        "cand_wf": "candidates is not None and len(candidates) == len(ghost.cidx) and len(ghost.cinv) == k "
+                   "and forall(lambda j: implies(0 <= j and j < len(candidates), candidates[j] is not None))",
+        "sound": "forall(lambda j: implies(0 <= j and j < len(candidates), 0 <= ghost.cidx[j] and ghost.cidx[j] < k and C(ghost.cidx[j]) "
+                 "and candidates[j][0] is resolved_full_cites[ghost.cidx[j]][0] and candidates[j][1] is resolved_full_cites[ghost.cidx[j]][1] and ghost.cinv[ghost.cidx[j]] == j))",
+        "complete": "forall(lambda i: implies(0 <= i and i < k and C(i), 0 <= ghost.cinv[i] and ghost.cinv[i] < len(candidates) and ghost.cidx[ghost.cinv[i]] == i))",
+    })
+ghost_code("resolve._resolve_shortcase_citation", "loop1:body_end",
+    "ghost.cinv = seq_append(ghost.cinv, ite(C(k), len(candidates) - 1, 0 - 1))\n"
+    "ghost.cidx = ite(C(k), seq_append(ghost.cidx, k), ghost.cidx)")
+
+# ------------------------------------------------------------------------------------------------ the one-pass resolver
+CIT_WF = ("citations is not None and forall(lambda i: implies(0 <= i and i < len(citations), "
+          "citations[i] is not None and citations[i].metadata is not None and citations[i].groups is not None and metadata_wf(citations[i]) "
+          "and implies(isinstance(citations[i], ResourceCitation), typed(citations[i], 'obj<ResourceCitation>').edition_guess is not None or 'reporter' in citations[i].groups) "
+          "and implies(isinstance(citations[i], IdCitation), citations[i].metadata.pin_cite is None or len(citations[i].metadata.pin_cite) <= 300) "
+          "and implies(isinstance(citations[i], FullCitation), page_shape(citations[i].groups.get('page')))))")
+
+R_HAS = "map_has(resolutions, r)"
+R_GET = "map_get(resolutions, r)"
+
+contract("resolve.resolve_citations",
+    types={"citations": "seq[obj<CitationBase>]"},
+    returns="defaultdict[obj<Resource>,seq[obj<CitationBase>]]", noraise=True, prop="C06",
+    requires={"citations_wf": CIT_WF},
+    locals_types={"resolutions": "defaultdict[obj<Resource>,seq[obj<CitationBase>]]",
+                  "resolved_full_cites": "seq[tuple[obj<FullCitation>,obj<Resource>]]",
+                  "last_resolution": "obj<Resource>", "resolution": "obj<Resource>"},
+    ghost={"res": "seq[int]", "pos": "seq[int]", "src": "dict[int,seq[int]]", "fidx": "seq[int]"},
+    ghost_init={"ghost0": "len(ghost.res) == 0 and len(ghost.pos) == 0 and len(ghost.fidx) == 0 and forall(lambda r: not map_has(ghost.src, r))"},
+    ensures={
+        # C06: the values are pairwise disjoint sub-sequences of the input: same objects, input order, nothing invented/repeated
+        "same_objects_in_order": "forall(lambda r, j: implies(map_has(result, r) and 0 <= j and j < len(map_get(result, r)), "
+            "0 <= map_get(ghost.src, r)[j] and map_get(ghost.src, r)[j] < len(citations) and map_get(result, r)[j] is citations[map_get(ghost.src, r)[j]]))"
+            " and forall(lambda r, j, j2: implies(map_has(result, r) and 0 <= j and j < j2 and j2 < len(map_get(result, r)), map_get(ghost.src, r)[j] < map_get(ghost.src, r)[j2]))",
+        "disjoint": "forall(lambda r, j, r2, j2: implies(map_has(result, r) and map_has(result, r2) and 0 <= j and j < len(map_get(result, r)) and 0 <= j2 and j2 < len(map_get(result, r2)) "
+            "and map_get(ghost.src, r)[j] == map_get(ghost.src, r2)[j2], r == r2 and j == j2))",
+        # every list starts with a full citation
+        "first_is_full": "forall(lambda r: implies(map_has(result, r), len(map_get(result, r)) >= 1 and isinstance(map_get(result, r)[0], FullCitation)))",
+        # every full citation appears under exactly one resource (its own)
+        "every_full_once": "forall(lambda i: implies(0 <= i and i < len(citations) and isinstance(citations[i], FullCitation), "
+            "ghost.res[i] is not None and ghost.res[i] == RK(citekey(citations[i])) and map_has(result, ghost.res[i]) "
+            "and 0 <= ghost.pos[i] and ghost.pos[i] < len(map_get(result, ghost.res[i])) and map_get(result, ghost.res[i])[ghost.pos[i]] is citations[i]))",
+        # two full citations share a resource exactly when they are equal
+        "share_iff_equal": "forall(lambda i, j: implies(0 <= i and i < len(citations) and 0 <= j and j < len(citations) and isinstance(citations[i], FullCitation) and isinstance(citations[j], FullCitation), "
+            "(ghost.res[i] == ghost.res[j]) == (citekey(citations[i]) == citekey(citations[j]))))",
+        # unknown (section-sign) citations never appear
+        "unknown_never": "forall(lambda i: implies(0 <= i and i < len(citations) and isinstance(citations[i], UnknownCitation), ghost.res[i] is None))",
+        "recorded_iff_resolved": "forall(lambda i: implies(0 <= i and i < len(citations) and ghost.res[i] is not None, map_has(result, ghost.res[i]) and 0 <= ghost.pos[i] and ghost.pos[i] < len(map_get(result, ghost.res[i])) "
+            "and map_get(ghost.src, ghost.res[i])[ghost.pos[i]] == i))",
+        # C08: every non-full citation is grouped only with a resource introduced by a full citation occurring EARLIER
+        "causal": "forall(lambda i: implies(0 <= i and i < len(citations) and ghost.res[i] is not None and not isinstance(citations[i], FullCitation), "
+            "map_get(ghost.src, ghost.res[i])[0] < i and isinstance(citations[map_get(ghost.src, ghost.res[i])[0]], FullCitation)))",
+    },
+    props={"causal": "C08"})
+
+loop("resolve.resolve_citations", 1,
+    invariant={
+        "wf": "len(ghost.res) == k and len(ghost.pos) == k and resolutions is not None and resolved_full_cites is not None and len(ghost.fidx) == len(resolved_full_cites)",
+        "keys": f"forall(lambda r: ({R_HAS} == map_has(ghost.src, r)) and implies({R_HAS}, len(map_get(ghost.src, r)) == len({R_GET}) and len({R_GET}) >= 1))",
+        "members": f"forall(lambda r, j: implies({R_HAS} and 0 <= j and j < len({R_GET}), 0 <= map_get(ghost.src, r)[j] and map_get(ghost.src, r)[j] < k "
+                   f"and {R_GET}[j] is citations[map_get(ghost.src, r)[j]] and ghost.res[map_get(ghost.src, r)[j]] == r and ghost.pos[map_get(ghost.src, r)[j]] == j))",
+        "order": f"forall(lambda r, j, j2: implies({R_HAS} and 0 <= j and j < j2 and j2 < len({R_GET}), map_get(ghost.src, r)[j] < map_get(ghost.src, r)[j2]))",
+        "recorded": "forall(lambda i: implies(0 <= i and i < k and ghost.res[i] is not None, map_has(resolutions, ghost.res[i]) and 0 <= ghost.pos[i] "
+                    "and ghost.pos[i] < len(map_get(resolutions, ghost.res[i])) and map_get(ghost.src, ghost.res[i])[ghost.pos[i]] == i))",
+        "full_resolved": "forall(lambda i: implies(0 <= i and i < k and isinstance(citations[i], FullCitation), ghost.res[i] is not None and ghost.res[i] == RK(citekey(citations[i]))))",
+        "first_full": f"forall(lambda r: implies({R_HAS}, isinstance(citations[map_get(ghost.src, r)[0]], FullCitation)))",
+        "rfc": "forall(lambda m: implies(0 <= m and m < len(resolved_full_cites), 0 <= ghost.fidx[m] and ghost.fidx[m] < k and resolved_full_cites[m] is not None "
+               "and resolved_full_cites[m][0] is citations[ghost.fidx[m]] and isinstance(citations[ghost.fidx[m]], FullCitation) and resolved_full_cites[m][1] is not None "
+               "and reskey(resolved_full_cites[m][1]) == ghost.res[ghost.fidx[m]] and ghost.res[ghost.fidx[m]] is not None and map_has(resolutions, reskey(resolved_full_cites[m][1]))))",
+        "unknown": "forall(lambda i: implies(0 <= i and i < k and isinstance(citations[i], UnknownCitation), ghost.res[i] is None))",
+        # C07: id. follows only its predecessor -- last_resolution is the resolution of the immediately preceding element, resolved or not
+        "last_is_prev": "implies(k == 0, last_resolution is None) and implies(k > 0, (last_resolution is None) == (ghost.res[k - 1] is None) "
+                        "and implies(last_resolution is not None, reskey(last_resolution) == ghost.res[k - 1] and map_has(resolutions, reskey(last_resolution))))",
+    },
+    props={"last_is_prev": "C07"},
+    # C08 (online): one step only appends the current citation to at most one list; nothing earlier changes
+    step={
+        "append_only": "forall(lambda r: implies(map_has(prev(resolutions), r), map_has(resolutions, r) and len(map_get(prev(resolutions), r)) <= len(map_get(resolutions, r)) "
+                       "and forall(lambda j: implies(0 <= j and j < len(map_get(prev(resolutions), r)), map_get(resolutions, r)[j] is map_get(prev(resolutions), r)[j]))))",
+        "at_most_current": "forall(lambda r: len(map_get(resolutions, r)) == len(map_get(prev(resolutions), r)) "
+                           "or (len(map_get(resolutions, r)) == len(map_get(prev(resolutions), r)) + 1 and ghost.res[k] is not None and r == ghost.res[k] "
+                           "and map_get(resolutions, r)[len(map_get(resolutions, r)) - 1] is citations[k]))",
+        "rfc_prefix": "len(prev(resolved_full_cites)) <= len(resolved_full_cites) and len(resolved_full_cites) <= len(prev(resolved_full_cites)) + 1 "
+                      "and forall(lambda m: implies(0 <= m and m < len(prev(resolved_full_cites)), resolved_full_cites[m][0] is prev(resolved_full_cites)[m][0] and resolved_full_cites[m][1] is prev(resolved_full_cites)[m][1]))",
+    })
+R.loops[("resolve.resolve_citations", 1)].props.update({"append_only": "C08", "at_most_current": "C08", "rfc_prefix": "C08"})
+
+ghost_code("resolve.resolve_citations", "loop1:body_end",
+    "ghost.res = seq_append(ghost.res, ite(truthy(resolution), reskey(resolution), None))\n"
+    "ghost.pos = seq_append(ghost.pos, ite(truthy(resolution), len(map_get(resolutions, reskey(resolution))) - 1, 0))\n"
+    "ghost.src = ite(truthy(resolution), map_put(ghost.src, reskey(resolution), seq_append(map_get(ghost.src, reskey(resolution)), k)), ghost.src)\n"
+    "ghost.fidx = ite(isinstance(citation, FullCitation), seq_append(ghost.fidx, k), ghost.fidx)")
